@@ -13,29 +13,31 @@ LEVELS = "VSW"
 
 def explore(ctx, extended=False, focus=None):
     ex = Exploration()
-    ex.rule = ("programs from the operator x kind x value-class table; one third in ignore-errors mode, one sixth with guarded "
+    ex.rule = ("programs from the operator x kind x value-class table, split over the real snarkjs, zkinterface, zkifbellman and zkifbulletproofs backends (own field each); one third in ignore-errors mode, one sixth with guarded "
                "regions (both guard values); non-trivial = emitted a constraint or raised; distinct = (shape, operator set, kinds, "
                "bitlength, mode, error class)")
-    n = ctx.n(500, 20000) * (4 if extended else 1)
+    n = ctx.n(3000, 60000) * (4 if extended else 1)
     mix = [(5, progs.op_case), (1, progs.unop_case), (2, progs.method_case), (1, progs.ite_case), (2, progs.chain_case),
            (3, progs.guarded_case), (1, progs.array_case), (4, lambda rnd, cid, p: progs.op_case(rnd, cid, "ignore", p=p))]
-    cases = corpus_cases("C04") + progs.generate(ctx.rnd, n, "c04x" if extended else "c04_", mix=mix)
-    for r in execute_all(cases):
+    mix.append((3, progs.edge_case))
+    for r in execute_backends(ctx.rnd, n, "c04x" if extended else "c04_", mix, corpus_cases("C04")):
         account(ex, r)
+        ex.count(f"backend:{r.case.meta.get('backend')}")
         correspond(ex, r, LEVELS)
         for i in r.incoh:
             sig = instr_sig(r.case, r.regs, i)
+            sig["backend"] = r.case.meta.get("backend", "snarkjs")
             sig["mode"] = "ignore" if r.case.cfg["ign"] else ("guarded" if in_guard(r.case, i) else "plain")
             ex.violations.append(Violation(sig, f"register r{i} ({r.case.instrs[i]}) reports {r.regs[i][:80]} but its wire "
                                                 f"expression evaluates differently on the recorded witness",
-                                           {"case": r.case.line(), "register": i}))
+                                           {"case": r.case.line(), "register": i, "backend": r.case.meta.get("backend", "snarkjs")}))
         if len(ex.samples) < 6 and r.cons:
             ex.samples.append(r.case.line())
     return ex
 
 
 def replay(ctx, payload):
-    r = replay_case(payload["replay"]["case"])
+    r = replay_case(payload["replay"]["case"], payload["replay"].get("backend", "snarkjs"))
     if r.incoh:
         print(f"VIOLATION property=C04 replay=(given) incoherent registers {r.incoh}")
         return 1
